@@ -253,3 +253,26 @@ theorem marker_in_key_is_misread :
   decide
 
 end JKey
+
+/-! ## array shapes through JSON -/
+namespace JShape
+
+/-- **what `.json` does to the shape of an array**: it is cut after the first zero-length axis -/
+theorem shapeOf_nest : ∀ s : List Nat, shapeOf (nest s) = cut s
+  | [] => rfl
+  | 0 :: r => rfl
+  | (n + 1) :: r => by
+    simp only [nest, List.replicate_succ, shapeOf, cut, List.length_replicate]
+    rw [shapeOf_nest r]
+
+/-- shapes without a zero-length axis before the last one survive … -/
+theorem roundtrip (s : List Nat) (h : cut s = s) : shapeOf (nest s) = s := by
+  rw [shapeOf_nest, h]
+
+/-- … `(0, 3)` and `(2, 0, 3)` do not (known finding `json-empty-array-shape`) -/
+theorem empty_array_shape_lost :
+    shapeOf (nest [0, 3]) = [0] ∧ shapeOf (nest [2, 0, 3]) = [2, 0] := by
+  constructor <;> rfl
+
+end JShape
+
